@@ -46,9 +46,10 @@ Lemma ob_shutdown_prog :
   core shutdown_prog = [b "lock"; b "defer:unlock"; b "close-once"; b "poll:zero-return-nil|ctx-done-return-err"].
 Proof. vm_compute. reflexivity. Qed.
 
-(* Close holds connsMu while it sets the closing signal and closes every registered connection *)
+(* Close holds connsMu while it sets the closing signal and closes every registered connection — and,
+   for a *tls.Conn (whose Close is a no-op while its handler is closing it), the socket underneath *)
 Lemma ob_close_prog :
-  core close_prog = [b "lock"; b "defer:unlock"; b "close-once"; b "range-conns-close"; b "return"].
+  core close_prog = [b "lock"; b "defer:unlock"; b "close-once"; b "range-conns-close-and-socket-under-tls"; b "return"].
 Proof. vm_compute. reflexivity. Qed.
 
 Lemma ob_closing_body :
